@@ -103,7 +103,16 @@ pub fn gen_cfg(r: &mut Rng, rg: &Regime) -> GenCfg {
     let mut executors: Vec<String> = (0..1 + { let n = if r.chance(20) { 4 } else { 2 }; r.below(n) }).map(|_| r.pick(&pool).clone()).collect();
     executors.dedup();
     let ask_fee = if r.chance(rg.fee_pct) { Some((r.pick(&pool).clone(), r.pick(rg.rates).to_string())) } else { None };
-    let bid_fee = if r.chance(rg.fee_pct) { Some((r.pick(&pool).clone(), r.pick(rg.rates).to_string())) } else { None };
+    let mut bid_fee = if r.chance(rg.fee_pct) { Some((r.pick(&pool).clone(), r.pick(rg.rates).to_string())) } else { None };
+    // one account collecting both fees, often at the same rate (the two transfers of a fill are then alike)
+    if let (Some(a), Some(b)) = (&ask_fee, &mut bid_fee) {
+        if r.chance(15) {
+            b.0 = a.0.clone();
+            if r.chance(60) {
+                b.1 = a.1.clone();
+            }
+        }
+    }
     let ask_attrs: Vec<String> = if r.chance(rg.attrs_pct) {
         match r.below(3) {
             0 => vec!["kyc".to_string()],
@@ -138,7 +147,8 @@ pub fn setup_ops(r: &mut Rng, c: &GenCfg) -> Vec<Op> {
     for a in &c.pool {
         // accounts may carry the same attribute name more than once (multi-valued attributes)
         let names: Vec<String> = match r.below(20) {
-            0..=13 => vec!["kyc".into(), "acc".into(), "x".into()],
+            0..=12 => vec!["kyc".into(), "acc".into(), "x".into()],
+            13 => vec!["KYC".into(), "Acc".into(), "ky".into(), "ac".into(), " kyc".into(), "kyc ".into(), "".into(), "X".into()], // other case, shorter names, padding
             15 => vec!["kyc".into()],
             16 => vec!["kyc".into(), "kyc".into()],
             17 => vec!["acc".into(), "acc".into(), "x".into()],
@@ -209,6 +219,7 @@ fn fresh_id(r: &mut Rng, g: &mut GenState, book: &Book, for_ask: bool) -> String
         let legacy: Vec<&String> = book.asks.keys().chain(book.bids.keys()).filter(|k| k.len() == 32 && k.bytes().all(|b| b.is_ascii_hexdigit())).collect();
         if !legacy.is_empty() {
             let k = *r.pick(&legacy);
+            let k = if r.chance(70) { k.to_lowercase() } else { k.to_string() };
             let id = format!("{}-{}-{}-{}-{}", &k[0..8], &k[8..12], &k[12..16], &k[16..20], &k[20..32]);
             let taken = if for_ask { book.asks.contains_key(&id) } else { book.bids.contains_key(&id) };
             if !taken {
@@ -439,8 +450,9 @@ pub fn gen_chain_change(r: &mut Rng, w: &World, pool: &[String]) -> Op {
     if r.chance(15) {
         return Op::SetAttrFail { on: !w.chain.attr_query_fails };
     }
-    let names: Vec<String> = match r.below(7) {
+    let names: Vec<String> = match r.below(8) {
         0 => vec![],
+        6 => vec!["Kyc".into(), "ACC".into(), "k".into(), "a".into(), "kyc\n".into(), "".into()],
         1 => vec!["kyc".into()],
         2 => vec!["kyc".into(), "kyc".into()],
         3 => vec!["acc".into(), "x".into(), "acc".into()],
@@ -491,6 +503,18 @@ fn bad_id(r: &mut Rng, id: &str, existing: &[String]) -> String {
 }
 const BIG_INTS: &[&str] = &["79228162514264337593543950336", "39614081257132168796771975168", "1267650600228229401496703205376"];
 const HUGE_INTS: &[&str] = &["79228162514264337593543950336", "340282366920938463463374607431768211455", "1267650600228229401496703205376"];
+
+/// a name that is not `s` but looks like it: another letter case, one character more or less, padding
+fn alike(r: &mut Rng, s: &str) -> String {
+    match r.below(6) {
+        0 => "nope".to_string(),
+        1 => s.to_uppercase(),
+        2 => format!("{}x", s),
+        3 if s.len() > 1 => s[..s.len() - 1].to_string(),
+        4 => format!(" {}", s),
+        _ => format!("{}2", s),
+    }
+}
 
 pub fn mutate(r: &mut Rng, w: &World, op: &mut Op) {
     let cfg = match read_cfg(w) {
@@ -546,8 +570,8 @@ pub fn mutate(r: &mut Rng, w: &World, op: &mut Op) {
             3 => funds.clear(),
             4 => { let p = body["price"].as_str().unwrap_or("1").to_string(); body["price"] = json!(bad_price(r, &p, prec)); }
             5 => { bump(body, "size", 1); for c in funds.iter_mut() { c.1 += 1; } }
-            6 => { body["base"] = json!("nope"); for c in funds.iter_mut() { c.0 = "nope".into(); } }
-            7 => body["quote"] = json!(if r.chance(50) { "nope" } else { "" }),
+            6 => { let d = alike(r, body["base"].as_str().unwrap_or("base")); body["base"] = json!(d.clone()); for c in funds.iter_mut() { c.0 = d.clone(); } }
+            7 => body["quote"] = json!(if r.chance(50) { alike(r, body["quote"].as_str().unwrap_or("q0")) } else { String::new() }),
             13 if r.chance(50) => { body["base"] = json!(""); }
             8 | 9 => { let id = body["id"].as_str().unwrap_or("").to_string(); body["id"] = json!(bad_id(r, &id, &existing)); }
             10 => if let Some(c) = funds.first_mut() { c.0 = "q0".into() },
@@ -583,9 +607,9 @@ pub fn mutate(r: &mut Rng, w: &World, op: &mut Op) {
                 }
             }
             8 | 9 => { let id = body["id"].as_str().unwrap_or("").to_string(); body["id"] = json!(bad_id(r, &id, &existing)); }
-            10 => body["base"] = json!(match r.below(3) { 0 => "conv0", 1 => "nope", _ => "" }),
+            10 => body["base"] = json!(match r.below(4) { 0 => "conv0".to_string(), 1 => "nope".to_string(), 2 => alike(r, "base"), _ => String::new() }),
             13 if r.chance(50) => { if r.chance(50) { body["quote"] = json!(""); } else { body["quote_size"] = json!("0"); } }
-            11 => { body["quote"] = json!("nope"); for c in funds.iter_mut() { c.0 = "nope".into(); } if !body["fee"].is_null() { body["fee"]["denom"] = json!("nope"); } }
+            11 => { let d = alike(r, body["quote"].as_str().unwrap_or("q0")); body["quote"] = json!(d.clone()); for c in funds.iter_mut() { c.0 = d.clone(); } if !body["fee"].is_null() { body["fee"]["denom"] = json!(d); } }
             12 => *sender = "noattr".into(),
             _ => { let b = r.pick(HUGE_INTS).to_string(); body["size"] = json!(b); }
         },
